@@ -131,6 +131,13 @@ func runC23(w *World, r *Report) {
 		}
 	}
 
+	// R-C23-5: the atomicity of caches.Delete that R-C23-1 relies on
+	r.Rule("R-C23-5", "caches.Delete is atomic: the lookups that decide its result and the removal share one critical section (rule R-C28-3 applied to internal/caches)", 3)
+
+	if ci := loadCaches(w, r); ci != nil {
+		c28Atomic(w, r, ci, "R-C23-5")
+	}
+
 	// R-C23-3: grant handlers
 	nGrant := 0
 
